@@ -1031,6 +1031,8 @@ func checkTypedFailures(c *Ctx, r *Report, pa *provAnalysis) {
 		})
 	}
 	r.Count("errorf_with_error_args_on_signing_paths", nw)
+	checkSignerReaderOnce(c, r, scopeW)
+	checkPGPConfigFields(c, r)
 	// the signature-member write failure in deb.Package is typed as well
 	if pk := c.PackagerByFormat("deb"); pk != nil {
 		for _, m := range arMembers(c, pk.Package) {
@@ -1109,4 +1111,82 @@ func forEachInstrIn(fns []*ssa.Function, f func(ssa.Instruction)) {
 	for _, fn := range fns {
 		forEachInstr(fn, f)
 	}
+}
+
+// checkSignerReaderOnce (F12-once): a signing callback consumes the reader it
+// is handed; the same reader value handed to a callback a second time (a
+// retry) yields the empty rest - the callback would sign nothing, and the
+// result would be stored as the package's signature.
+func checkSignerReaderOnce(c *Ctx, r *Report, scope map[*ssa.Function]bool) {
+	n := 0
+	for _, fn := range sortedFuncs(c, scope) {
+		// dynamic calls of a func(io.Reader) (..., error) value, by reader argument
+		byReader := map[ssa.Value][]*ssa.Call{}
+		forEachInstr(fn, func(in ssa.Instruction) {
+			call, ok := in.(*ssa.Call)
+			if !ok || call.Call.IsInvoke() || call.Call.StaticCallee() != nil {
+				return
+			}
+			if _, isB := call.Call.Value.(*ssa.Builtin); isB {
+				return
+			}
+			sig := call.Call.Signature()
+			if sig.Params().Len() != 1 || sig.Params().At(0).Type().String() != "io.Reader" {
+				return
+			}
+			byReader[call.Call.Args[0]] = append(byReader[call.Call.Args[0]], call)
+		})
+		for rd, calls := range byReader {
+			n++
+			var again *ssa.Call
+			for _, a := range calls {
+				for _, b := range calls {
+					if a != b && (a.Block() == b.Block() && instrIndex(a) < instrIndex(b) || a.Block() != b.Block() && blockReaches(a.Block(), b.Block())) {
+						again = b
+					}
+				}
+			}
+			construct := fmt.Sprintf("%s: reader %s is handed to a signing callback once", c.funcKey(fn), shorten(valueExpr(c, rd, 0), 40))
+			if again != nil {
+				r.Fail("F12-once", construct, c.instrPos(again), "the same reader is handed to the callback again after an earlier call has consumed it: the second call signs what is left (nothing), and that signature is stored")
+			} else {
+				r.Pass("F12-once", construct, c.instrPos(calls[0]), "one call per reader value on every path")
+			}
+		}
+	}
+	r.Floor("F12-once", n, 2)
+}
+
+// checkPGPConfigFields: the OpenPGP configuration handed to the library sets
+// the signing key id and the hash - nothing else. In particular no Time: the
+// library evaluates key validity at that instant, so a configured time before
+// the key's creation makes a valid key unusable.
+func checkPGPConfigFields(c *Ctx, r *Report) {
+	allowed := map[string]bool{"SigningKeyId": true, "DefaultHash": true}
+	n := 0
+	for _, fn := range c.ModFuncs {
+		if c.funcPkgPath(fn) != modPath+"/internal/sign" {
+			continue
+		}
+		k := 0
+		forEachInstr(fn, func(in ssa.Instruction) {
+			al, ok := in.(*ssa.Alloc)
+			if !ok || !isNamed(derefType(al.Type()), "github.com/ProtonMail/go-crypto/openpgp/packet", "Config") {
+				return
+			}
+			n++
+			k++
+			var extra []string
+			for _, ref := range *al.Referrers() {
+				if fa, ok := ref.(*ssa.FieldAddr); ok {
+					if name := fieldName(fa.X.Type(), fa.Field); !allowed[name] {
+						extra = append(extra, name)
+					}
+				}
+			}
+			r.Check(len(extra) == 0, "K-pgp-config", fmt.Sprintf("%s: OpenPGP config#%d sets key id and hash only", c.funcKey(fn), k), c.instrPos(al),
+				fmt.Sprintf("fields set besides SigningKeyId/DefaultHash: %v; the library's defaults (current time for key validity, its own randomness) are what makes a configured key produce a verifying signature", uniq(extra)))
+		})
+	}
+	r.Floor("K-pgp-config", n, 2)
 }
